@@ -59,7 +59,7 @@ CHECKS = {
             "For every container state (all value patterns up to the length bound, optionally after one prior operation) x every operation that calls user code x every invocation index of that callback as the single panic point: no label dropped twice (also after clearing and dropping), nothing dropped is reachable, Strings stay valid UTF-8, the arena still serves requests and passes the arena oracles; same for panicking initialisers/Clone/Default/iterators inside arena slice methods and panicking destructors under Box.",
             "exhaustive panic-point enumeration"),
     "C17": ("model_checking", "bumpmc grid engine (Box conversion chains)", "§4 C17",
-            "Every chain constructor x up to 3 (thorough 4) steps from {into_raw/from_raw, deref read, deref_mut write, Pin round trip, compare/hash/format} x terminal {drop, into_inner/consume, leak, into_raw, downcast mismatch+match, TryFrom<[T;N]> wrong+right N} over 11 value families (sized, zero-sized, slices from 5 constructors, str, dyn Any, dyn Any+Send, Iterator, dyn Future, dyn Hasher), compared with std Box: observations, destructor ledger, and the arena's ledger unchanged by Box death.",
+            "Every chain constructor x up to 3 (thorough 4) steps from {into_raw/from_raw, deref read, deref_mut write, Pin round trip, compare/hash/format} x terminal {drop, into_inner/consume, leak, into_raw, downcast mismatch+match, TryFrom<[T;N]> wrong+right N} over 12 value families (sized, zero-sized, slices of sized and of zero-sized droppable elements from 5 constructors, str, dyn Any, dyn Any+Send, Iterator, dyn Future, dyn Hasher), compared with std Box: observations (also after the arena is used again), destructor ledger, and the arena's ledger unchanged by Box death; plus a forwarding grid: every comparison/Hash/Hasher/Display/Debug/Iterator/Future/Borrow impl on value pairs, format specs and method pairs against std's Box.",
             "exhaustive chain enumeration with a reference model"),
     "C18": ("exploration", "bumpmc grid engine (capacity, growth) + arena explorer (profile capprobe)", "§4 C18",
             "Exhaustive grid: every capacity of a fixed set x MIN_ALIGN x request compositions served under a refusing allocator; growth workloads over fixed/ramp/alternating request sizes up to 2^18 (2^24 thorough) bytes judged on chunk-size monotonicity, logarithmic request count and bounded held/occupied ratio; BFS with a terminal probe of exactly chunk_capacity() bytes at every reached state.",
